@@ -805,6 +805,28 @@ struct ml
       W2 -= A;
       want_m(c, "matrix::object::operator-=", W2, p_sub(p_smul(k, p_add(pa, pb)), pa), "view-target");
     }
+    // aliasing operands: the scalar refers to an element of the target, the right operand is the target itself
+    {
+      for (std::size_t ar = 0; ar < N; ++ar)
+        for (std::size_t ac = 0; ac < N; ++ac)
+        {
+          VF_COUNT("judged/aliasing-operands");
+          S Z{A};
+          Z *= Z.get_unsafe(static_cast<size_type>(ar)).get_unsafe(static_cast<size_type>(ac));
+          want_m(c, "matrix::object::operator*=", Z, p_smul(pa[ar][ac], pa), "scalar-aliases-element");
+          std::array<T, N * N> zb{};
+          for (std::size_t i = 0; i < N * N; ++i)
+            zb[i] = static_cast<T>(pa[i / N][i % N]);
+          V ZV{typename op_t::vs_t{zb.data()}};
+          ZV *= ZV.get_unsafe(static_cast<size_type>(ar)).get_unsafe(static_cast<size_type>(ac));
+          want_m(c, "matrix::object::operator*=", ZV, p_smul(pa[ar][ac], pa), "scalar-aliases-element-view-target");
+        }
+      S Z2{A};
+      Z2 += Z2;
+      want_m(c, "matrix::object::operator+=", Z2, p_smul(2, pa), "self-operand");
+      Z2 -= Z2;
+      want_m(c, "matrix::object::operator-=", Z2, p_smul(0, pa), "self-operand");
+    }
   }
 
   // ---- three matrices
@@ -1148,6 +1170,29 @@ struct vl
       want_v(c, opn("object::operator*=").c_str(), Y,
              p_zip(p_zip(p_vsmul(k, p_zip(pu, pw, std::plus<ll>{})), pu, std::minus<ll>{}), pw, std::multiplies<ll>{}),
              "view-target");
+    }
+    // aliasing operands: the scalar refers to a component of the target, the right operand is the target itself
+    {
+      for (std::size_t ai = 0; ai < N; ++ai)
+      {
+        VF_COUNT("judged/aliasing-operands");
+        S Z{u};
+        Z *= Z.get_unsafe(static_cast<size_type>(ai));
+        want_v(c, opn("object::operator*=(scalar)").c_str(), Z, p_vsmul(pu[ai], pu), "scalar-aliases-component");
+        std::array<T, N> zb{};
+        for (std::size_t i = 0; i < N; ++i)
+          zb[i] = static_cast<T>(pu[i]);
+        V ZV{VS{zb.data()}};
+        ZV *= ZV.get_unsafe(static_cast<size_type>(ai));
+        want_v(c, opn("object::operator*=(scalar)").c_str(), ZV, p_vsmul(pu[ai], pu), "scalar-aliases-component-view-target");
+      }
+      S Z2{u};
+      Z2 += Z2;
+      want_v(c, opn("object::operator+=").c_str(), Z2, p_vsmul(2, pu), "self-operand");
+      Z2 *= Z2;
+      want_v(c, opn("object::operator*=").c_str(), Z2, p_zip(p_vsmul(2, pu), p_vsmul(2, pu), std::multiplies<ll>{}), "self-operand");
+      Z2 -= Z2;
+      want_v(c, opn("object::operator-=").c_str(), Z2, p_vsmul(0, pu), "self-operand");
     }
     if constexpr (K::is_vector)
     {
@@ -1953,7 +1998,7 @@ namespace
 void body()
 {
   for (char const *b :
-       {"judged/model-comparisons", "judged/identities", "m2/pairs", "m2/triples", "m2/matvec",
+       {"judged/model-comparisons", "judged/identities", "judged/aliasing-operands", "m2/pairs", "m2/triples", "m2/matvec",
         "random/matrix-algebra-cases", "random/matrix-product-cases", "random/vector-dim-cases",
         "exhaustive/vector-dim-pairs", "builders/cases", "matrix/det/zero", "matrix/det/nonzero",
         "matrix/nonsymmetric", "matrix/noncommuting-pair", "matrix/matvec/nonzero-result", "matrix/cmp/equal",
